@@ -96,7 +96,7 @@ def run(ctx):
             # the `scoped` stream is well-typed by construction WHEN every use means its innermost
             # binder: any rejection is a rejection for scoping reasons
             # ... and so are the witnesses kept under corpus/C05
-            if stream == "scoped" or cid.startswith("corpus:"):
+            if stream in ("scoped", "names") or cid.startswith("corpus:"):
                 n_accept += 1
                 if acc.startswith("err:") and not scope_err:
                     ctx.report({"oracle": "accept", "kind": "well-scoped-well-typed-program-rejected"},
@@ -116,7 +116,10 @@ def run(ctx):
         "rule": "one case = one goml program (corpus + generated scope nests in let/if/match-arm/closure/while/tuple- and struct-pattern "
                 "positions; names a,b,c, or names spelled like the constructors of an enum of the same file / another file of the "
                 "package / an imported package, like the helper function, the enum type, a struct; duplicate names in one parameter "
-                "list / pattern in a fifth of them); non-trivial = at least 2 binders and 2 identifier uses; distinct by the scope "
+                "list / pattern in a fifth of them; stream `names` = the catalogue of harness/src/namecat.rs: a binder of every kind "
+                "(fn / closure parameter, let, annotated let, match variable, tuple / struct / enum-payload sub-pattern, struct shorthand) "
+                "spelled like a variant, struct, enum type, function or builtin, used bare, as the callee of a call (plain, parenthesised, under "
+                "unary and binary operators, in arguments, conditions, scrutinees, statements), passed on, aliased, captured, as a receiver); non-trivial = at least 2 binders and 2 identifier uses; distinct by the scope "
                 "tree sent to the model",
         "streams(stream/enum-site)": dict(sorted(streams.items())),
         "must_be_accepted(scoped stream)": n_accept,
